@@ -21,6 +21,8 @@ type Ob struct {
 	Pos       []string `json:"positions,omitempty"`
 	Witness   []string `json:"witness,omitempty"`
 	Known     string   `json:"known_finding,omitempty"`
+	// Fingerprint: where the obligation is lost (escape.go); compared with the `witness` list of a known finding
+	Fingerprint []string `json:"fingerprint,omitempty"`
 }
 
 func (o *Ob) Key() string { return o.Rule + " | " + o.Func + " | " + o.Construct }
@@ -50,6 +52,11 @@ func (r *RuleRun) OK(fn, construct, msg string, pos ...string) {
 }
 func (r *RuleRun) Bad(fn, construct, msg string, witness []string, pos ...string) {
 	r.add("violation", fn, construct, msg, witness, pos)
+}
+
+// BadAt is Bad with a fingerprint: the places where the obligation is lost (see escape.go).
+func (r *RuleRun) BadAt(fn, construct, msg string, witness []string, fingerprint []string, pos ...string) {
+	r.add("violation", fn, construct, msg, witness, pos).Fingerprint = fingerprint
 }
 func (r *RuleRun) Undecided(fn, construct, msg string, pos ...string) {
 	r.add("undecided", fn, construct, msg, nil, pos)
@@ -91,6 +98,9 @@ type KnownFinding struct {
 	Commit       string `json:"commit,omitempty"`
 	WhatFails    string `json:"what_fails"`
 	Reproduction string `json:"reproduction,omitempty"`
+	// Witness: the fingerprint elements this entry covers; a violation with an element that is not listed here
+	// is a different way of losing the same obligation and is reported (empty: no fingerprint comparison)
+	Witness []string `json:"witness,omitempty"`
 }
 
 func loadKnown(path string) ([]KnownFinding, error) {
@@ -157,6 +167,7 @@ func runProperty(e *Engine, prop string, known []KnownFinding) *PropResult {
 	}
 	sort.SliceStable(res.Obs, func(i, j int) bool { return res.Obs[i].Key() < res.Obs[j].Key() })
 	matched := map[int]bool{}
+	var split []*Ob
 	for _, o := range res.Obs {
 		if o.Status == "ok" {
 			continue
@@ -165,6 +176,26 @@ func runProperty(e *Engine, prop string, known []KnownFinding) *PropResult {
 		if o.Status == "violation" {
 			for i, k := range known {
 				if k.Property == prop && k.Status == "open" && k.Rule == o.Rule && k.Function == o.Func && k.Construct == o.Construct {
+					if len(k.Witness) > 0 && len(o.Fingerprint) > 0 {
+						listed := map[string]bool{}
+						for _, w := range k.Witness {
+							listed[w] = true
+						}
+						covered, mark := 0, len(split)
+						for _, f := range o.Fingerprint {
+							if listed[f] {
+								covered++
+								continue
+							}
+							// the same obligation is lost at a place the known finding does not describe
+							split = append(split, &Ob{Rule: o.Rule, Func: o.Func, Construct: o.Construct + " @ " + f, Status: "violation",
+								Msg: o.Msg + " [lost at a place that the known finding does not cover: " + f + "]", Pos: o.Pos, Witness: o.Witness, Fingerprint: []string{f}})
+						}
+						if covered == 0 {
+							split = split[:mark] // nothing of it is the known finding: reported as it is
+							continue
+						}
+					}
 					o.Known = k.WhatFails
 					matched[i] = true
 					isKnown = true
@@ -176,6 +207,10 @@ func runProperty(e *Engine, prop string, known []KnownFinding) *PropResult {
 		} else {
 			res.Violations = append(res.Violations, o)
 		}
+	}
+	for _, o := range split {
+		res.Obs = append(res.Obs, o)
+		res.Violations = append(res.Violations, o)
 	}
 	for i, k := range known {
 		if k.Property == prop && k.Status == "open" && !matched[i] {
